@@ -1,1 +1,454 @@
-fn main() {}
+//! mc-sched: exhaustive preemption-bounded exploration of the multi-threaded readers/writers.
+
+mod menu;
+mod scen;
+mod sched;
+
+use lzma_rust2::verif::{census, cov};
+use mc_core::run::Cli;
+use mc_core::{Report, Violation};
+use scen::{Kind, Obs, Scenario};
+use sched::{EndKind, ExecInfo};
+use serde_json::json;
+use std::collections::{BTreeMap, BTreeSet};
+use std::sync::{Arc, Mutex};
+use std::time::Instant;
+
+fn main() {
+    mc_core::run::tune_malloc();
+    let cli = Cli::parse();
+    mc_core::run::install_panic_hook();
+    let rep = Report::new(&cli.check);
+    let t0 = Instant::now();
+    match cli.check.as_str() {
+        "C08" | "C09" | "C10" | "C13" | "C18" => run(&cli, &rep),
+        other => {
+            eprintln!("mc-sched: unknown check {other}");
+            std::process::exit(2);
+        }
+    }
+    let wall = t0.elapsed().as_secs_f64();
+    let js = rep.to_json(&cli.tier, cli.seed, wall);
+    let text = serde_json::to_string_pretty(&js).unwrap();
+    match &cli.out {
+        Some(p) => std::fs::write(p, text).expect("write --out"),
+        None => println!("{text}"),
+    }
+}
+
+/// Per-scenario accumulation across its executions.
+#[derive(Default)]
+struct Acc {
+    outcomes: BTreeSet<String>,
+    call_patterns: BTreeSet<String>,
+    out_of_order_execs: u64,
+    peaks: BTreeSet<u32>,
+    spawned: BTreeSet<u32>,
+    completed: u64,
+    failed: u64,
+    /// writer outputs already validated (hash -> verdicts), so that identical outputs of
+    /// different schedules are decoded/compared once
+    validated: BTreeMap<u64, Vec<(String, String, String)>>,
+    reference: Option<Vec<u8>>,
+}
+
+fn phase_class(p: &str) -> String {
+    let mut s = String::new();
+    for c in p.chars() {
+        if c.is_ascii_digit() || c == '#' {
+            continue;
+        }
+        s.push(c);
+    }
+    s
+}
+
+#[allow(clippy::too_many_arguments)]
+fn judge(prop: &str, s: &Scenario, obs: &Obs, end: &EndKind, cens: (u32, u32, u32), cv: &[u64], acc: &mut Acc) -> Vec<(String, String, String)> {
+    let mut v: Vec<(String, String, String)> = vec![];
+    let reader = matches!(s.kind, Kind::R2 { .. } | Kind::RL);
+    let writer = matches!(s.kind, Kind::W2 | Kind::WL);
+    match end {
+        EndKind::Failed(p) => {
+            acc.failed += 1;
+            if p.msg.starts_with("deadlock!") {
+                let n_blocked = p.msg.matches("(task ").count();
+                if obs.phase == "returned" {
+                    v.push((
+                        "leak".into(),
+                        "worker threads can never finish after the caller returned".into(),
+                        format!("blocked tasks: {n_blocked}; {}", p.msg.chars().take(300).collect::<String>()),
+                    ));
+                } else {
+                    v.push((
+                        "deadlock".into(),
+                        format!("caller blocked for ever in {}", phase_class(&obs.phase)),
+                        format!("phase={} calls={:?} {}", obs.phase, obs.calls, p.msg.chars().take(300).collect::<String>()),
+                    ));
+                }
+            } else if p.msg.starts_with("exceeded max_steps") {
+                v.push(("livelock".into(), format!("step horizon exceeded in {}", phase_class(&obs.phase)), p.msg.clone()));
+            } else {
+                v.push(("panic".into(), p.site(), format!("{}:{} {} (phase {})", p.file, p.line, p.msg, obs.phase)));
+            }
+            return v;
+        }
+        EndKind::Completed => {}
+    }
+    acc.completed += 1;
+    let (spawned, live, peak) = cens;
+    acc.peaks.insert(peak);
+    acc.spawned.insert(spawned);
+    if cv[cov::Counter::MtOutOfOrder as usize] > 0 {
+        acc.out_of_order_execs += 1;
+    }
+    acc.call_patterns.insert(obs.calls.join(","));
+    let outcome = match &obs.result {
+        None => "none".to_string(),
+        Some(Ok(b)) => format!("ok:{}:{:016x}", b.len(), scen::hash(b)),
+        Some(Err(e)) => format!("err:{e}"),
+    };
+    acc.outcomes.insert(outcome.clone());
+
+    // --- every property: thread census
+    if live != 0 {
+        v.push(("leak".into(), "census: live worker threads after the execution ended".into(), format!("live={live}")));
+    }
+    if peak > s.max_workers() {
+        v.push((
+            "too-many-workers".into(),
+            "more live worker threads than the requested maximum".into(),
+            format!("peak={peak} max={} spawned={spawned}", s.max_workers()),
+        ));
+    }
+    let complete = s.drop_after == usize::MAX && (reader || (writer && s.finish));
+    if let Kind::Q { close, .. } = s.kind {
+        if close {
+            // every pushed item stolen exactly once, FIFO per stealer
+            if let Some(Ok(enc)) = &obs.result {
+                let mut seen = BTreeSet::new();
+                let mut last: BTreeMap<u8, i32> = BTreeMap::new();
+                for ch in enc.chunks(2) {
+                    if !seen.insert(ch[1]) {
+                        v.push(("queue-duplicate".into(), "item stolen twice".into(), format!("{enc:?}")));
+                    }
+                    let l = last.entry(ch[0]).or_insert(-1);
+                    if (ch[1] as i32) < *l {
+                        v.push(("queue-order".into(), "stealer saw items out of FIFO order".into(), format!("{enc:?}")));
+                    }
+                    *l = ch[1] as i32;
+                }
+                if seen.len() as u64 != obs.unit_count.unwrap_or(0) {
+                    v.push((
+                        "queue-lost".into(),
+                        "an item pushed before close was never delivered".into(),
+                        format!("delivered={} pushed_ok={:?}", seen.len(), obs.unit_count),
+                    ));
+                }
+            }
+        }
+        return v;
+    }
+    if !complete {
+        return v;
+    }
+
+    let faulty = s.fail_at != 0 && obs.fault_fired;
+    match (&obs.result, s.expect.as_ref()) {
+        (None, _) => v.push(("no-result".into(), "driver finished without a result".into(), format!("{:?}", obs.calls))),
+        (Some(Ok(bytes)), expect) => {
+            if faulty {
+                v.push((
+                    "no-error".into(),
+                    "inner I/O error was swallowed: the caller saw success".into(),
+                    format!("calls={:?}", obs.calls),
+                ));
+            } else if s.must_err {
+                v.push((
+                    "no-error".into(),
+                    "damaged / truncated / unterminated input reported as success".into(),
+                    format!("got {} bytes; calls={:?}", bytes.len(), obs.calls),
+                ));
+            } else if reader {
+                match expect {
+                    Ok(want) => {
+                        if bytes != want {
+                            v.push((
+                                "wrong-bytes".into(),
+                                "MT reader output differs from the single-threaded reader".into(),
+                                format!("got len={} want len={} first_diff={:?}", bytes.len(), want.len(), bytes.iter().zip(want.iter()).position(|(a, b)| a != b)),
+                            ));
+                        }
+                    }
+                    Err(e) => v.push((
+                        "no-error".into(),
+                        "single-threaded reader rejects the stream but the MT reader reports success".into(),
+                        format!("st error {e}; mt returned {} bytes", bytes.len()),
+                    )),
+                }
+            } else if writer {
+                let h = scen::hash(bytes) ^ (bytes.len() as u64).rotate_left(32);
+                if let Some(prev) = acc.validated.get(&h) {
+                    v.extend(prev.iter().cloned());
+                } else {
+                    let mut w: Vec<(String, String, String)> = vec![];
+                    // decode with the single-threaded reader
+                    let dec = match s.kind {
+                        Kind::W2 => scen::st_decode_lzma2(bytes, None),
+                        _ => scen::st_decode_lzip(bytes),
+                    };
+                    match dec {
+                        Ok(d) if &d == s.data.as_ref() => {}
+                        Ok(d) => w.push((
+                            "wrong-bytes".into(),
+                            "MT writer output decodes to different bytes".into(),
+                            format!("decoded len={} input len={}", d.len(), s.data.len()),
+                        )),
+                        Err(e) => w.push(("undecodable".into(), format!("single-threaded reader rejects MT writer output: {e}"), String::new())),
+                    }
+                    if prop == "C13" || prop == "C08" || prop == "C18" {
+                        // byte-identical to the harness-side reference (per-unit single-threaded encodings)
+                        if acc.reference.is_none() {
+                            let cuts = flush_cuts(s);
+                            acc.reference = Some(match s.kind {
+                                Kind::W2 => scen::ref_w2(&s.data, &cuts),
+                                _ => scen::ref_wl(&s.data, &cuts),
+                            });
+                        }
+                        let reference = acc.reference.as_ref().unwrap();
+                        if bytes != reference {
+                            w.push((
+                                if prop == "C18" { "unit-size" } else { "nondeterministic-output" }.into(),
+                                "MT writer output differs from the concatenation of per-unit single-threaded encodings".into(),
+                                format!("got len={} fnv={:016x}; reference len={} fnv={:016x}", bytes.len(), scen::hash(bytes), reference.len(), scen::hash(reference)),
+                            ));
+                        }
+                    }
+                    v.extend(w.iter().cloned());
+                    acc.validated.insert(h, w);
+                }
+            }
+            // C18: unit counts reported by the readers
+            if reader && !s.must_err && !faulty {
+                if let (Some(n), Ok(want)) = (obs.unit_count, expect) {
+                    if !want.is_empty() && n != s.units {
+                        v.push((
+                            "unit-count".into(),
+                            "chunk/member count differs from the number of independent units in the stream".into(),
+                            format!("reported={n} walked={}", s.units),
+                        ));
+                    }
+                }
+            }
+        }
+        (Some(Err(e)), expect) => {
+            if faulty {
+                if e != &format!("{:?}", scen::INJECTED) {
+                    v.push((
+                        "error-kind-lost".into(),
+                        "the inner error's kind was not passed to the caller".into(),
+                        format!("caller saw {e}"),
+                    ));
+                }
+            } else if s.must_err || expect.is_err() {
+                // fine: an error was required
+            } else {
+                v.push((
+                    "spurious-error".into(),
+                    format!("valid input/ops but the caller saw an error: {e}"),
+                    format!("calls={:?}", obs.calls),
+                ));
+            }
+        }
+    }
+    v
+}
+
+/// Input offsets at which the scenario's ops flush (a flush closes the current unit early).
+fn flush_cuts(s: &Scenario) -> Vec<usize> {
+    let mut off = 0;
+    let mut cuts = vec![];
+    for op in &s.wops {
+        match op {
+            scen::WOp::Write(n) => off += n,
+            scen::WOp::Flush => {
+                if off > 0 && cuts.last() != Some(&off) {
+                    cuts.push(off)
+                }
+            }
+            scen::WOp::Empty => {}
+        }
+    }
+    cuts
+}
+
+fn run(cli: &Cli, rep: &Report) {
+    let prop = cli.check.clone();
+    let thorough = cli.thorough();
+    let items = menu::menu(&prop, thorough);
+    rep.rule(
+        "E-sched: for every scenario of the menu (closed driver over the real MT reader/writer/queue) every thread \
+         interleaving with at most k preemptions is executed on the real code under a controlled scheduler \
+         (iterative context bounding; k per scenario in `domains`); an execution is non-trivial when at least two \
+         tasks were enabled at some scheduling point; distinct = distinct (scenario, schedule) pairs",
+    );
+    rep.assumption("all atomics are executed sequentially consistent by the runtime; Acquire/Release weakness is not explored");
+    rep.assumption("scheduling points are the synchronisation operations of std::sync / std::thread / mpsc as modelled by shuttle 0.9.3; the five MT source files contain no unsafe code (checked below)");
+    rep.assumption("bounds: <= 3 workers, <= 6 work units, preemption bound per scenario as listed; nothing beyond is covered");
+    check_no_unsafe(rep);
+
+    let rep_arc: &Report = rep;
+    let total = Mutex::new(sched::Stats::default());
+    let outcomes_all = Mutex::new(BTreeMap::<String, serde_json::Value>::new());
+    let n = items.len();
+    mc_core::run::par_for_with(
+        n,
+        1,
+        |_| (),
+        |_, i| {
+            let (scn, bound) = &items[i];
+            let sdesc = scn.desc();
+            // --only: "<scenario desc>|<schedule>"
+            let mut forced = None;
+            if let Some(only) = &cli.only {
+                let mine: Vec<&String> = only.iter().filter(|o| o.starts_with(&format!("{prop}|{sdesc}|"))).collect();
+                if mine.is_empty() {
+                    return;
+                }
+                let sched_s = mine[0].rsplit('|').next().unwrap_or("-");
+                forced = sched::parse_schedule(sched_s);
+                if forced.is_none() {
+                    rep_arc.machinery_error(format!("cannot parse schedule in {}", mine[0]));
+                    return;
+                }
+            }
+            let acc = Arc::new(Mutex::new(Acc::default()));
+            let viols: Arc<Mutex<Vec<Violation>>> = Arc::new(Mutex::new(vec![]));
+            let nontrivial: Arc<Mutex<Vec<u64>>> = Arc::new(Mutex::new(vec![]));
+            let scn2 = scn.clone();
+            let acc2 = acc.clone();
+            let viols2 = viols.clone();
+            let nt2 = nontrivial.clone();
+            let prop2 = prop.clone();
+            let sdesc2 = sdesc.clone();
+            let on_end = Arc::new(move |info: &ExecInfo, end: &EndKind| {
+                let obs = scen::obs_take();
+                let cens = census::snapshot();
+                let cv = cov::take();
+                let mut acc = acc2.lock().unwrap();
+                let found = judge(&prop2, &scn2, &obs, end, cens, &cv, &mut acc);
+                let case = format!("{prop2}|{sdesc2}|{}", sched::schedule_desc(&info.schedule));
+                if info.schedule.iter().any(|t| *t != 0) {
+                    nt2.lock().unwrap().push(mc_core::report::fnv(case.as_bytes()));
+                }
+                for (kind, site, detail) in found {
+                    let mut vs = viols2.lock().unwrap();
+                    if vs.len() < 64 {
+                        vs.push(
+                            Violation::new(&kind, site, case.clone())
+                                .attr("scenario", scenario_class(&scn2))
+                                .attr("fault", fault_class(&scn2))
+                                .detail(format!("{detail} | preemptions={} steps={}", info.preemptions, info.schedule.len())),
+                        );
+                    }
+                }
+            });
+            // keep going after failures, but not for ever: every failing schedule leaks its coroutines
+            let max_execs = if thorough { 20_000_000 } else { 3_000_000 };
+            let st = sched::explore(*bound, max_execs, forced, scn.body(), on_end);
+            let acc = acc.lock().unwrap();
+            for v in viols.lock().unwrap().drain(..) {
+                rep_arc.violation(v);
+            }
+            rep_arc.nontrivial_many(&nontrivial.lock().unwrap());
+            if st.divergences > 0 {
+                rep_arc.machinery_error(format!("{sdesc}: {} executions diverged while replaying a schedule prefix (uncontrolled nondeterminism)", st.divergences));
+            }
+            if st.capped {
+                rep_arc.add("capped_scenarios", 1);
+                rep_arc.note(format!("{sdesc}: execution cap hit; bound {bound} NOT completed"));
+            }
+            rep_arc.add_many(&[
+                ("evaluations", st.executions),
+                ("traces_validated_against_impl", st.executions),
+                ("states", st.states),
+                ("transitions", st.transitions),
+                ("executions_failed", st.failed),
+                ("executions_with_out_of_order_results", acc.out_of_order_execs),
+                ("scenarios", 1),
+            ]);
+            rep_arc.max("max.schedule_depth", st.max_depth as u64);
+            rep_arc.max("max.enabled_tasks", st.max_enabled as u64);
+            rep_arc.max("max.peak_workers", acc.peaks.iter().max().copied().unwrap_or(0) as u64);
+            rep_arc.max("max.distinct_outcomes_in_one_scenario", acc.outcomes.len() as u64);
+            total.lock().unwrap().merge(&st);
+            outcomes_all.lock().unwrap().insert(
+                sdesc.clone(),
+                json!({"bound": bound, "executions": st.executions, "by_preemptions": st.by_preemptions, "failed": st.failed,
+                       "max_depth": st.max_depth, "distinct_outcomes": acc.outcomes.len(), "distinct_call_patterns": acc.call_patterns.len(),
+                       "out_of_order_execs": acc.out_of_order_execs, "peaks": acc.peaks, "spawned": acc.spawned}),
+            );
+            // non-vacuity per scenario: schedules must actually differ
+            if cli.only.is_none() && st.executions <= 1 && !matches!(scn.kind, Kind::Q { stealers: 0, .. }) && *bound > 0 {
+                rep_arc.note(format!("{sdesc}: only {} execution(s) - no scheduling freedom", st.executions));
+            }
+            if rep_arc.n_samples() < 8 && i % (n / 8 + 1) == 0 {
+                rep_arc.sample(json!({"scenario": sdesc, "bound": bound, "executions": st.executions,
+                    "outcomes": acc.outcomes.iter().take(4).collect::<Vec<_>>(), "call_patterns": acc.call_patterns.len()}));
+            }
+        },
+        |_| (),
+    );
+    let t = total.lock().unwrap();
+    rep.extra("by_preemptions", json!(t.by_preemptions));
+    rep.extra("scenarios", json!(*outcomes_all.lock().unwrap()));
+    if cli.only.is_none() {
+        if t.executions < 100 {
+            rep.machinery_error(format!("vacuous: only {} executions explored", t.executions));
+        }
+        if matches!(prop.as_str(), "C08" | "C13") && rep.get("executions_with_out_of_order_results") == 0 {
+            rep.machinery_error("vacuous: no execution delivered results out of order");
+        }
+    }
+}
+
+fn scenario_class(s: &Scenario) -> String {
+    match &s.kind {
+        Kind::R2 { .. } => "lzma2-reader-mt",
+        Kind::RL => "lzip-reader-mt",
+        Kind::W2 => "lzma2-writer-mt",
+        Kind::WL => "lzip-writer-mt",
+        Kind::Q { .. } => "work-queue",
+    }
+    .to_string()
+}
+
+fn fault_class(s: &Scenario) -> String {
+    if s.fail_at != 0 {
+        "inner-io-error".into()
+    } else if s.must_err {
+        format!("bad-input:{}", s.name.split('/').next().unwrap_or(""))
+    } else if s.drop_after != usize::MAX || (!s.finish && matches!(s.kind, Kind::W2 | Kind::WL)) {
+        "early-drop".into()
+    } else {
+        "none".into()
+    }
+}
+
+fn check_no_unsafe(rep: &Report) {
+    let repo = mc_core::gen::repo_dir();
+    let mut bad = vec![];
+    for f in ["src/work_queue.rs", "src/lzma2_reader_mt.rs", "src/enc/lzma2_writer_mt.rs", "src/lzip/reader_mt.rs", "src/lzip/writer_mt.rs"] {
+        match std::fs::read_to_string(format!("{repo}/{f}")) {
+            Ok(t) => {
+                if t.contains("unsafe") {
+                    bad.push(f);
+                }
+            }
+            Err(_) => rep.note(format!("could not read {f} for the unsafe scan")),
+        }
+    }
+    if !bad.is_empty() {
+        rep.assumption(format!("WARNING: unsafe code appeared in {bad:?}; data races below scheduling-point granularity are NOT covered by this check"));
+    }
+}
